@@ -86,7 +86,8 @@ def generate():
 
 
 def _fn(path, name):
-    tree = ast.parse(open(path).read())
+    import astnorm
+    tree = astnorm.parse_file(path)  # the same reading of the module as py2coq.translate (harness/astnorm.py)
     return py2coq.find_function(tree, name)
 
 
